@@ -125,6 +125,7 @@ type parked struct {
 	point string
 	opid  uint64
 	rel   chan struct{}
+	at    time.Time
 }
 
 type controller struct {
@@ -135,7 +136,7 @@ type controller struct {
 }
 
 func (c *controller) yield(point string, opid uint64) {
-	p := &parked{point: point, opid: opid, rel: make(chan struct{})}
+	p := &parked{point: point, opid: opid, rel: make(chan struct{}), at: time.Now()}
 	c.mu.Lock()
 	c.parked = append(c.parked, p)
 	c.mu.Unlock()
@@ -186,6 +187,9 @@ type caller struct {
 	started time.Time
 	timeout int
 	rel     *parked
+	chanFull bool
+	released time.Time
+	parkedAt map[string]time.Time
 }
 
 type result struct {
@@ -269,6 +273,31 @@ func run(q req) resp {
 	nextTag := 1
 	readerBusy := false // reader parked at dispatch.send
 	var readerParked *parked
+	readerTarget := -1
+	// a caller blocked in its select with something ready WILL leave it: wait for that autonomous
+	// step and log it now, so that the log order is the order things happened
+	settle := func(i int) {
+		if i < 0 || i >= len(cs) {
+			return
+		}
+		c := cs[i]
+		if c.state != 2 || !(c.chanFull || c.sendSt == 3) {
+			return
+		}
+		p := ctl.take(2*time.Second, func(p *parked) bool {
+			return p.opid == c.opid && (p.point == "request.got" || p.point == "request.timeout" || p.point == "request.senderr")
+		})
+		if p == nil {
+			r.Hang = fmt.Sprintf("caller %d has a result or send error ready but did not leave its select", i)
+			return
+		}
+		which := map[string]int{"request.got": 1, "request.timeout": 2, "request.senderr": 3}[p.point]
+		c.state, c.took, c.rel = 3, which, p
+		if which == 1 {
+			c.chanFull = false
+		}
+		ev(7, i, which, int(p.at.Sub(cs[i].released).Microseconds()))
+	}
 
 	// collect write calls parked in the scripted transport
 	collectWrites := func() {
@@ -304,6 +333,7 @@ func run(q req) resp {
 		ev(5, i, tag, 1)
 		readerBusy = true
 		readerParked = p
+		readerTarget = i
 	}
 	deliver := func() {
 		close(readerParked.rel)
@@ -316,6 +346,10 @@ func run(q req) resp {
 		}
 		if p.point == "dispatch.sent" {
 			ev(6, 1, 0, 0)
+			if readerTarget >= 0 {
+				cs[readerTarget].chanFull = true
+				settle(readerTarget)
+			}
 		} else {
 			ev(6, 0, 0, 0)
 		}
@@ -337,7 +371,10 @@ func run(q req) resp {
 			if i >= 0 && cs[i].state == 2 {
 				cs[i].state, cs[i].took = 3, which
 				cs[i].rel = p
-				ev(7, i, which, 0)
+				if which == 1 {
+					cs[i].chanFull = false
+				}
+				ev(7, i, which, int(p.at.Sub(cs[i].released).Microseconds()))
 			}
 		}
 		type action struct {
@@ -414,6 +451,7 @@ func run(q req) resp {
 			ev(1, a.i, 0, 0)
 		case 2:
 			c := cs[a.i]
+			c.released = time.Now()
 			close(c.rel.rel)
 			c.state = 2
 			ev(2, a.i, 0, 0)
@@ -423,6 +461,7 @@ func run(q req) resp {
 				collectWrites()
 				time.Sleep(200 * time.Microsecond)
 			}
+			settle(a.i)
 		case 3:
 			cs[a.i].wc.res <- nil
 			cs[a.i].sendSt = 2
@@ -431,6 +470,7 @@ func run(q req) resp {
 			cs[a.i].wc.res <- fmt.Errorf("scripted write failure")
 			cs[a.i].sendSt = 3
 			ev(4, a.i, 0, 0)
+			settle(a.i)
 		case 5:
 			if a.i >= 0 {
 				feed(cs[a.i].opid, nextTag)
@@ -452,7 +492,10 @@ func run(q req) resp {
 			}
 			which := map[string]int{"request.got": 1, "request.timeout": 2, "request.senderr": 3}[p.point]
 			c.state, c.took, c.rel = 3, which, p
-			ev(7, a.i, which, 0)
+			if which == 1 {
+				c.chanFull = false
+			}
+			ev(7, a.i, which, int(p.at.Sub(c.released).Microseconds()))
 		case 8:
 			c := cs[a.i]
 			close(c.rel.rel)
@@ -478,11 +521,15 @@ func run(q req) resp {
 			}
 		}
 	}
-	// drain: release everything so that goroutines end; then the fresh request
+	// the reader must not stay parked; callers stay where they are (their registrations are part
+	// of the state the model predicts); then the fresh request
+	if r.Hang == "" && readerBusy {
+		deliver()
+	}
+	r.RegLen = frugal.VerifTransportRegistryLen(tr)
 	if r.Hang == "" {
 		r.Fresh = freshRequest(tr, under, ctl)
 	}
-	r.RegLen = frugal.VerifTransportRegistryLen(tr)
 	ctl.mu.Lock()
 	for _, p := range ctl.parked {
 		select {
@@ -505,15 +552,7 @@ func run(q req) resp {
 // a fresh request after the adversarial prefix must get its own response promptly
 func freshRequest(tr frugal.FTransport, under *stt, ctl *controller) int {
 	ctl.mu.Lock()
-	ctl.block = map[string]bool{}
-	for _, p := range ctl.parked {
-		select {
-		case <-p.rel:
-		default:
-			close(p.rel)
-		}
-	}
-	ctl.parked = nil
+	ctl.block = map[string]bool{} // new arrivals at yield points no longer park
 	ctl.mu.Unlock()
 	go func() { // writes no longer park
 		for wc := range under.writes {
@@ -551,6 +590,19 @@ func freshRequest(tr frugal.FTransport, under *stt, ctl *controller) int {
 
 func main() {
 	logrus.SetOutput(io.Discard)
+	if len(os.Args) > 1 && os.Args[1] == "timing" {
+		if err := hx.Serve(func(q treq) tresp {
+			r, p := hx.Guarded(30*time.Second, func() tresp { return timing(q) })
+			if p != "" {
+				r.Hang = p
+			}
+			return r
+		}); err != nil {
+			fmt.Fprintln(os.Stderr, "vh_reg timing:", err)
+			os.Exit(3)
+		}
+		return
+	}
 	err := hx.Serve(func(q req) resp {
 		r, p := hx.Guarded(60*time.Second, func() resp { return run(q) })
 		if p != "" {
